@@ -751,17 +751,18 @@ Lemma externall_assign_commute s n v :
   step (step s (EAssign n false v)) EExternAll = step (step s EExternAll) (EAssign n false v).
 Proof.
   intros F X U.
-  set (i := f_int (topf s)).
+  remember (f_int (topf s)) as i eqn:Hi in *.
   set (en := {| e_key := mkkey KInternal i n; e_orig := render KInternal i n; e_val := v |}).
   set (mine := map snd (filter (fun p => N.eqb (fst p) i) (isl s))).
   assert (A : step s (EAssign n false v) = add_sym (add_isl s i n) en).
-  { unfold step. fold i. rewrite F, U, X. reflexivity. }
-  assert (B : step s EExternAll = set_xall (fold_left (declare i) mine s)) by reflexivity.
+  { unfold step. rewrite <- Hi, F, U, X. reflexivity. }
+  assert (B : step s EExternAll = set_xall (fold_left (declare i) mine s)).
+  { unfold step. rewrite <- Hi. reflexivity. }
   rewrite A, B.
   (* left: .extern all after the definition *)
   assert (L : step (add_sym (add_isl s i n) en) EExternAll =
               set_xall (declare i (add_sym (add_isl (fold_left (declare i) mine s) i n) en) n)).
-  { unfold step. replace (topf (add_sym (add_isl s i n) en)) with (topf s) by reflexivity. fold i.
+  { unfold step. replace (topf (add_sym (add_isl s i n) en)) with (topf s) by reflexivity. rewrite <- Hi.
     simpl isl. rewrite filter_app, map_app. simpl filter. rewrite N.eqb_refl. simpl map. fold mine.
     rewrite fold_left_app. simpl fold_left.
     rewrite fold_declare_add_sym, fold_declare_add_isl. reflexivity. }
@@ -770,7 +771,7 @@ Proof.
   assert (TS : topf (set_xall (fold_left (declare i) mine s)) =
                {| f_isfile := true; f_int := i; f_loc := f_loc (topf s); f_xall := true |}).
   { unfold set_xall, topf. rewrite (proj1 (stack_fold_declare i mine s)).
-    unfold topf in F, i. destruct (stack s) as [|t r]; [discriminate|]. simpl. rewrite F. reflexivity. }
+    unfold topf in F, Hi. destruct (stack s) as [|t r]; [discriminate|]. simpl. rewrite F, Hi. reflexivity. }
   unfold step. rewrite TS. simpl f_isfile. simpl f_int. simpl f_xall. simpl negb. cbv iota.
   assert (SY : syms (set_xall (fold_left (declare i) mine s)) = syms s).
   { unfold set_xall. destruct (stack (fold_left (declare i) mine s)); simpl; apply syms_fold_declare. }
@@ -796,3 +797,42 @@ Lemma exported_visible_lemma s loc int ln k v :
   lookup_ext ln (exts s) = Some k -> lookup_key k (syms s) = Some v ->
   resolve_final s loc int ln = Some v.
 Proof. intros A B D E. unfold resolve_final. rewrite A, B, D. exact E. Qed.
+
+(* after an ordinary label (or the end of a block / file) the local prefix of the scope that ended gets no further
+   definitions and is never again the prefix of an open block: a later use of the same numeric name is looked up
+   under another prefix *)
+Lemma local_reuse_lemma tr1 e tr2 :
+  let s := walk tr1 in
+  let p := f_loc (topf s) in
+  ((exists n x v, e = ELabel n x v) /\ f_isfile (topf s) = true) \/ ((e = EEndBlock \/ e = EEndFile) /\ stack s <> []) ->
+  let s2 := fold_left step tr2 (step s e) in
+  (forall ln, lookup_key (KLocal, p, ln) (syms s2) = lookup_key (KLocal, p, ln) (syms (step s e))) /\
+  ~ In p (locs s2) /\ (p < next_loc s2)%N.
+Proof.
+  intros s p H s2.
+  assert (I : inv s) by (apply inv_walk; apply inv_init).
+  assert (D : dead p (step s e)).
+  { destruct H as [((n & x & v & ->) & F)|(E & NE)].
+    - apply label_ends_scope; auto.
+    - apply end_ends_scope; auto. }
+  destruct (dead_walk p tr2 (step s e) D) as [[A B] C]. auto.
+Qed.
+
+(* an open scope: what is defined under its prefix stays visible from it until it ends *)
+Lemma local_visible_lemma s n v tr :
+  lookup_key (mkkey KLocal (f_loc (topf s)) n) (syms s) = Some v ->
+  resolve_final (fold_left step tr s) (f_loc (topf s)) (f_int (topf s)) (lower n) = Some v.
+Proof.
+  intros H. destruct (walk_from_app tr s) as ((T & HT) & _).
+  unfold resolve_final. rewrite HT. unfold mkkey in H. rewrite (lookup_key_app_some _ _ T _ H). reflexivity.
+Qed.
+
+Lemma invariants_lemma tr :
+  Forall wf_ev tr -> kinded (syms (walk tr)) /\ exts_shaped (exts (walk tr)) /\ inv (walk tr).
+Proof.
+  intros W. repeat split.
+  - apply kinded_walk; auto. intros en [].
+  - apply exts_shaped_walk. intros n k [].
+  - apply inv_walk. apply inv_init.
+  - apply inv_walk. apply inv_init.
+Qed.
